@@ -65,8 +65,9 @@ func C10(c *Ctx) {
 	fold := &gast.Grammar{Rules: []*gast.Rule{{Name: "S", Expr: gast.S(gast.Star(gast.C(gast.Cl(&gast.ClassSpec{Ranges: [][2]rune{{'a', 'z'}}, IgnoreCase: true}),
 		gast.Cl(&gast.ClassSpec{Chars: []rune("Ω-"), IgnoreCase: true}), gast.Li("å"))), gast.NotE(gast.Dot()))}}}
 	// a rule name defined twice with different bodies (a base grammar followed by an overriding part)
-	dup := &gast.Grammar{Rules: []*gast.Rule{{Name: "S", Expr: gast.S(gast.Star(gast.C(gast.Ref("A"), gast.Ref("B"))), gast.Star(gast.Dot()))},
-		{Name: "A", Expr: gast.A(gast.L("a"), 1, mon.Spec{})}, {Name: "B", Expr: gast.A(gast.S(gast.L("b"), gast.Lab("a", gast.Ref("A"))), 3, mon.Spec{})}, {Name: "A", Expr: gast.A(gast.Plus(gast.L("x")), 2, mon.Spec{})}}}
+	// (no blocks in the duplicated rule: their method names would be the same)
+	dup := &gast.Grammar{Rules: []*gast.Rule{{Name: "S", Expr: gast.S(gast.Star(gast.C(gast.A(gast.Lab("a", gast.Ref("A")), 1, mon.Spec{}), gast.Ref("B"))), gast.Star(gast.Dot()))},
+		{Name: "A", Expr: gast.L("a")}, {Name: "B", Expr: gast.A(gast.S(gast.L("b"), gast.Lab("a", gast.Ref("A"))), 3, mon.Spec{})}, {Name: "A", Expr: gast.Plus(gast.L("x"))}}}
 	// the fixed shapes run under every base flag set
 	for k := 0; k < 4; k++ {
 		for _, g := range append(append(append(c05Strata(), rollbackStrata()[:20]...), c02Strata()...), append(c14Strata(), fold, dup)...) {
